@@ -119,7 +119,7 @@ impl<'r> TryFrom<&'r [u8]> for Request<'r> {
                 let address = BigEndian::read_u16(&bytes[1..3]);
                 let quantity = BigEndian::read_u16(&bytes[3..5]) as usize;
                 let byte_count = bytes[5];
-                if bytes.len() < (6 + byte_count as usize) {
+                if bytes.len() < (6 + byte_count as usize) || byte_count as usize != quantity * 2 {
                     return Err(Error::ByteCount(byte_count));
                 }
                 let data = Data {
@@ -134,7 +134,9 @@ impl<'r> TryFrom<&'r [u8]> for Request<'r> {
                 let write_address = BigEndian::read_u16(&bytes[5..7]);
                 let write_quantity = BigEndian::read_u16(&bytes[7..9]) as usize;
                 let write_count = bytes[9];
-                if bytes.len() < (10 + write_count as usize) {
+                if bytes.len() < (10 + write_count as usize)
+                    || write_count as usize != write_quantity * 2
+                {
                     return Err(Error::ByteCount(write_count));
                 }
                 let data = Data {
